@@ -232,7 +232,7 @@ class Ctx:
         if not samples and recs:
             samples = [{k: recs[0].get(k) for k in ("name", "status", "symbols")}]
         cov = {
-            "evaluations": int(sum(int(r.get("queries", 1)) for r in recs)),
+            "evaluations": int(sum((int(r.get("queries", 1)) or 1) for r in recs)),  # a record without a solver query is still one executed case
             "distinct_nontrivial": distinct,
             "rule": self.rule or "one obligation per (instance, identity); non-trivial = contains at least one symbolic variable and its reachability twin is satisfiable",
             "samples": _jsonable(samples) or [{"note": "no obligations"}],
